@@ -9,6 +9,10 @@ NormSbRun(r) == IF "res" \in DOMAIN r THEN [r EXCEPT !.res = FromJ(@)] ELSE r
 NormSb(e) == [e EXCEPT !.spends = [i \in DOMAIN @ |-> [@[i] EXCEPT !.puzzle = FromJ(@), !.solution = FromJ(@)]],
                        !.runs = [i \in DOMAIN @ |-> NormSbRun(@[i])]]
 
+\* a puzzle whose output is too large to log ("big": the harness keeps only cost and verdict) makes the event opaque:
+\* the condition machine cannot be run on it; only the clauses on observed numbers are judged
+SbOpaque(e) == \E i \in DOMAIN e.runs : e.runs[i].ok /\ "res" \notin DOMAIN e.runs[i]
+
 Rev(s) == [i \in DOMAIN s |-> s[Len(s) + 1 - i]]
 
 \* (q . (((parent puzzle amount solution) ...))) - build_generator prepends, so the list is reversed
